@@ -1,12 +1,193 @@
+// C02: resolvers receive arguments exactly as GraphQL input coercion defines.
+//
+// spec/Coerce.tla enumerates (argument shape, source, abstract JSON value)
+// together with the outcome CoerceVariableValues + CoerceArgumentValues + input
+// coercion prescribe, and TLC checks the module's theorems on every case. This
+// driver renders the SDL of the `args` probe FROM the printed shape list,
+// generates and compiles servers from /repo's current templates in five
+// configurations that pairwise cover {nullable_input_omittable,
+// return_pointers_in_unmarshalinput, call_argument_directives_with_null,
+// struct_fields_always_pointers}, concretises every case, executes it through
+// the real executor and compares what the resolver received (or where the
+// error went). The scalar unmarshalers are additionally driven directly over
+// the class x carrier grid.
 package main
 
 import (
 	"fmt"
+	"os"
+	"sort"
+	"strings"
+	"time"
+
 	"verifharness/vlib"
 )
 
+func variants(s *Schema) []*variant {
+	mk := func(name string, follow, fn bool, mapBound bool, opts ...string) *variant {
+		o := map[string]bool{}
+		for _, k := range opts {
+			o[k] = true
+		}
+		v := &variant{v: vlib.Variant{Name: name, FollowSchema: follow, FuncSyntax: fn, Opts: o, Extra: modelsYAML(s, mapBound)}, binds: bindTable{}}
+		for n, b := range s.Binds {
+			if b == "map" && !mapBound {
+				b = "struct"
+			}
+			if b == "struct" && o["nullable_input_omittable"] {
+				b = "omit"
+			}
+			v.binds[n] = b
+		}
+		return v
+	}
+	const (
+		N = "nullable_input_omittable"
+		R = "return_pointers_in_unmarshalinput"
+		C = "call_argument_directives_with_null"
+		S = "struct_fields_always_pointers"
+	)
+	// the four non-empty configurations cover every pair of the four options
+	return []*variant{
+		mk("v0", false, false, true),
+		mk("v1", false, false, true, N, C, S),
+		mk("v2", false, true, false, N, R),
+		mk("v3", true, false, false, R, C),
+		mk("v4", false, false, false, R, S),
+	}
+}
+
 func main() {
-	vs := []vlib.Variant{{Name: "v0"}, {Name: "v1", Opts: map[string]bool{"nullable_input_omittable": true, "return_pointers_in_unmarshalinput": true}}}
+	c := vlib.NewCheck("C02", "exploration")
+	thorough := vlib.Tier() == "thorough"
+	cfg := "MC_Coerce.cfg"
+	if thorough {
+		cfg = "MC_Coerce_thorough.cfg"
+	}
+	t0 := time.Now()
+	sp := runSpec(cfg, 10*time.Minute)
+	c.AddStates(sp.res.Distinct, sp.res.Generated)
+	c.Set("tlc_config", cfg)
+	c.Set("tlc_wall_s", sp.res.WallS)
+	c.Set("cases", len(sp.cases))
+	c.Set("shapes", len(sp.schema.Shapes))
+	checkClasses(sp.schema.Classes)
+	checkRanges(sp.schema)
+	fmt.Fprintf(os.Stderr, "c02: TLC %s: %d cases, %d grid cells, %d states (%.1fs)\n", cfg, len(sp.cases), len(sp.grid), sp.res.Distinct, time.Since(t0).Seconds())
+
+	// the scalar unmarshalers, in process
+	runGrid(c, sp.grid)
+
+	// the probe: SDL from the shape list
+	installSDL(renderSDL(sp.schema))
+	vars := variants(sp.schema)
+	vs := make([]vlib.Variant, 0, len(vars))
+	for _, v := range vars {
+		vs = append(vs, v.v)
+	}
+	t1 := time.Now()
+	// the combination the probe cannot be built in (observed, then avoided): map-backed input + return_pointers_in_unmarshalinput
+	combo := vlib.Variant{Name: "vx", Opts: map[string]bool{"return_pointers_in_unmarshalinput": true}, Extra: modelsYAML(sp.schema, true)}
+	comboCh := make(chan error, 1)
+	go func() { _, err := vlib.BuildProbe("args", combo); comboCh <- err }()
 	bins, err := vlib.BuildProbes("args", vs)
-	fmt.Println(bins, err)
+	if err != nil {
+		vlib.Infra("build probes: %v", err)
+	}
+	for _, v := range vars {
+		v.bin = bins[v.v.ID()]
+	}
+	if err := <-comboCh; err != nil {
+		msg := err.Error()
+		if strings.Contains(msg, "compile") && strings.Contains(msg, "*map[string]interface{}") {
+			c.Violate("build:map-backed-input+return_pointers_in_unmarshalinput:does-not-compile",
+				"a map-backed input type (models: InM: {model: \"map[string]interface{}\"}) with return_pointers_in_unmarshalinput: true generates code that does not compile, so no resolver can receive such an argument:\n"+tail(msg, 600),
+				map[string]any{"kind": "build", "options": combo.Opts, "models": "InM: map[string]interface{}"})
+		} else {
+			vlib.Infra("build of the map + return_pointers_in_unmarshalinput configuration failed for an unexpected reason: %v", err)
+		}
+	}
+	c.AddEvals(1)
+	fmt.Fprintf(os.Stderr, "c02: %d configurations generated and compiled (%.1fs)\n", len(vars), time.Since(t1).Seconds())
+
+	t2 := time.Now()
+	results := replayAll(sp.schema, sp.cases, vars, vlib.Seed())
+	sort.SliceStable(results, func(i, j int) bool {
+		if results[i].cs.N != results[j].cs.N {
+			return results[i].cs.N < results[j].cs.N
+		}
+		return results[i].vr.v.Name < results[j].vr.v.Name
+	})
+	called, rejected := 0, 0
+	perKey := map[string]int{}
+	for _, r := range results {
+		c.AddEvals(1)
+		outcome := "value"
+		if r.obs.Called == 0 {
+			outcome = "rejected"
+			rejected++
+		} else {
+			called++
+		}
+		exp := "ok"
+		if !r.cs.Out.OK {
+			exp = "err"
+		} else if len(r.cs.Out.Soft) > 0 {
+			exp = "lenient"
+		}
+		c.Class(fmt.Sprintf("%s/%s/%s/%s/%s/%s", r.cs.sh.Type.String(), defKind(r.cs.sh), r.cs.Src.String(), r.cs.Origin, r.cs.Val.kindOf(), exp+">"+outcome))
+		if r.ver != nil {
+			perKey[r.ver.key]++
+			if perKey[r.ver.key] == 1 {
+				c.Violate(r.ver.key, r.ver.detail, map[string]any{"kind": "case", "config": r.vr.v.Name, "options": r.vr.v.Opts,
+					"query": r.cmd.Query, "variables": r.cmd.Vars, "carrier": r.cmd.Carrier, "shape": r.cs.Shape, "source": r.cs.Src.String(), "value": r.cs.Val.String(),
+					"specification": map[string]any{"ok": r.cs.Out.OK, "v": r.cs.Out.V.String(), "faults": r.cs.Out.Faults, "soft": r.cs.Out.Soft},
+					"observed": r.obs})
+			}
+		}
+	}
+	for i := 0; i < len(results) && i < 4*len(vars); i += len(vars) + 1 {
+		r := results[i*37%len(results)]
+		c.Sample(map[string]any{"config": r.vr.v.Name, "query": r.cmd.Query, "variables": r.cmd.Vars, "specification_ok": r.cs.Out.OK,
+			"specification_v": r.cs.Out.V.String(), "resolver_called": r.obs.Called, "resolver_args": r.obs.Args, "errors": append(r.obs.Gate, r.obs.Errs...)})
+	}
+	if called == 0 || rejected == 0 {
+		vlib.Infra("vacuous: %d cases reached a resolver, %d were rejected", called, rejected)
+	}
+	keys := make([]string, 0, len(perKey))
+	for k := range perKey {
+		keys = append(keys, k)
+	}
+	sort.Strings(keys)
+	dev := map[string]int{}
+	for _, k := range keys {
+		dev[k] = perKey[k]
+	}
+	c.Set("deviating_observations_by_key", dev)
+	c.Set("resolver_reached", called)
+	c.Set("rejected", rejected)
+	c.Set("configurations", len(vars))
+	c.Set("exhaustive", true)
+	c.Set("rule", "TLC enumerates every (argument shape, source, abstract value) of the bounded universe in spec/Coerce.tla "+
+		"(34 shapes; sources literal / variable (json.Number, float64) / variable with default / nullable variable at a non-null position; "+
+		"values: integer boundary classes, floats, strings, enum literals, lists <= 2, single-for-list, objects deviating from a base object in <= "+
+		map[bool]string{false: "2 fields", true: "3 fields"}[thorough]+" incl. unknown / missing / variable-carried fields) with the outcome the GraphQL specification prescribes; "+
+		"every case is executed on every generated configuration; a class is distinct by (type, default, source, origin of the value, value kind, expected>observed outcome); "+
+		"the scalar unmarshalers are driven over target x carrier x class")
+	c.Assume("ur.Canon renders the Go values the resolver received faithfully (nil pointer = null, Omittable unset / set, map keys)")
+	c.Assume("the view of absent / null under a Go binding (struct: both nil; Omittable: unset vs set(nil); map: no key vs nil) is as printed by the specification's ViewTable")
+	c.Assume("Int bound to Go int (64 bit): values outside 32 bit may be rejected or delivered unchanged; float64 rounding of integers beyond 2^53 into Float is not judged")
+	fmt.Fprintf(os.Stderr, "c02: %d executions on %d configurations (%.1fs); %d reached the resolver, %d rejected\n", len(results), len(vars), time.Since(t2).Seconds(), called, rejected)
+	c.Finish()
+}
+
+func defKind(sh *Shape) string {
+	s := "nodef"
+	if sh.Def.T != "nodef" {
+		s = "def"
+	}
+	if sh.Dir {
+		s += "+dir"
+	}
+	return s
 }
